@@ -25,6 +25,15 @@ def classify(s, opt_array_ok):
     return "KF3"
 
 def run(ctx):
+    # "included in a module the way the documentation shows": a real crate whose build.rs calls compile_json and whose
+    # modules use json_shape_build::include_json_shape! (harness/macroprobe --features real), rebuilt against /repo
+    mp = genlib.macro_probe()
+    ctx.notes["documented_include_round_trip_builds"] = mp["real"]
+    ctx.evaluations += 1
+    if mp["real"] is False:
+        ctx.fail("a crate whose build.rs calls compile_json and whose module uses include_json_shape!, as documented, does not build",
+                 "cd /verif/harness/macroprobe && cargo run --offline --features real",
+                 {"macro_could_not_read": mp["real_unreadable"][:6], "cargo": (mp["real_error"] or "")[-800:]})
     n = 1500 if ctx.tier == "quick" else 20000
     pool, inferred = genlib.gen_pool(ctx, n, deep_chains=True)
     ascii_pool = [(s, p) for s, p in pool if genlib.printable_shape(s)]
